@@ -115,21 +115,21 @@ class ConfigManager(object):
         else:
             config_type = None
 
-        if config_type is not None:
-            return config_type
-        else:
-            logger.debug("Trying auto detect config type by parsing")
-            with open(config_path, 'r') as f:
-                data = f.read()
-            for config_type, transform in self.TYPES.items():
-                config_type_str = self.TYPE_NAMES[config_type]
-                try:
-                    logger.debug("Trying to parse as %s" % config_type_str)
-                    if transform().reverse(data):
-                        logger.debug("Successfully detected %s as config type for %s" % (config_type_str, config_path))
-                        return config_type
-                except Exception as ex:
-                    logger.debug("%s was not parseable as %s, reason: %s" % (config_path, config_type_str, ex))
+        # The content decides, the type the extension stands for is only tried first: the config of a profile is
+        # always stored as config.json, also when it was saved in key=value format.
+        logger.debug("Trying auto detect config type by parsing")
+        with open(config_path, 'r') as f:
+            data = f.read()
+        for candidate_type in sorted(self.TYPES, key=lambda t: t != config_type):
+            config_type_str = self.TYPE_NAMES[candidate_type]
+            try:
+                logger.debug("Trying to parse as %s" % config_type_str)
+                if self.TYPES[candidate_type]().reverse(data):
+                    logger.debug("Successfully detected %s as config type for %s" % (config_type_str, config_path))
+                    return candidate_type
+            except Exception as ex:
+                logger.debug("%s was not parseable as %s, reason: %s" % (config_path, config_type_str, ex))
+        return config_type
 
     def get_str_transform(self, serialize_type):
         if serialize_type in self.TYPES:
